@@ -7,6 +7,16 @@ from pygopherd import gopherentry
 from pygopherd.handlers.base import BaseHandler
 
 
+def has_fileno(fp) -> bool:
+    """True if fp is backed by an operating system file descriptor that can
+    be handed to a subprocess."""
+    try:
+        fp.fileno()
+    except (AttributeError, OSError, ValueError):
+        return False
+    return True
+
+
 class CompressedGopherEntry(gopherentry.GopherEntry):
     """
     Using an abstract class because we attach extra variables to the gopher entry.
@@ -82,4 +92,11 @@ class CompressedFileHandler(FileHandler):
     def write(self, wfile):
         decompprog = self.decompressors[self.getentry().realencoding]
         with self.vfs.open(self.getselector(), "rb") as fp:
-            subprocess.run([decompprog], stdin=fp, stdout=wfile)
+            source = {"stdin": fp} if has_fileno(fp) else {"input": fp.read()}
+            if has_fileno(wfile) and not self.protocol.check_tls():
+                subprocess.run([decompprog], stdout=wfile, **source)
+            else:
+                # The decompressor cannot write to a TLS connection or to an
+                # in-memory buffer, so relay its output ourselves.
+                resp = subprocess.run([decompprog], capture_output=True, **source)
+                wfile.write(resp.stdout)
